@@ -388,7 +388,7 @@ def main(argv):
             # cross-check sample and the per-property counts are those of the property's own programs.
             from . import followup
             cases += followup.make(random.Random(seed * 7919 + 13), [c for c in cases if "prog" in c],
-                                   {"quick": 56}.get(a.tier, 560))
+                                   {"quick": 60}.get(a.tier, 600))
 
     # ---- 3. extra per-property work (translator validation, numeric oracles, alias graph) ------
     extra = getattr(mod, "extra_checks", None)
